@@ -84,7 +84,7 @@ contract(F + "AbstractGrader.apply_attempt_based_credit", props=["C17", "C01"],
         "implies(is_long(result), result['overall_message'].startswith(old(result['overall_message'])))",
         "implies(is_long(result), is_str(result['overall_message']) and forall(range(len(result['input_list'])), lambda i: entry_shape(result['input_list'][i])))",
     ],
-    modifies=["result", "elems(result['input_list'])", "self.debuglog"],
+    modifies=["result", "elems(result['input_list']) if is_long(result) else nothing", "self.debuglog"],
     loops={"for results_dict in result['input_list']": dict(
         modifies=["elems(result['input_list'])"],
         invariant=[
@@ -179,3 +179,140 @@ contract(F + "ItemGrader.standardize_cfn_return", props=["C01", "C16"],
              "implies(is_str(value), result['grade_decimal'] == 0.5)",
              "implies(is_dict(value), result['grade_decimal'] == value['grade_decimal'] and result['msg'] == (value['msg'] if 'msg' in value else ''))"],
     modifies=[])
+
+
+# ---------------------------------------------------------------------------------------------- AbstractGrader.__call__ (C01, C02, C11, C17)
+contract(F + "AbstractGrader.ensure_text_inputs", props=["C02"], trusted=True,
+    ensures=["same(result, student_input)",
+             "(allow_lists and is_list(student_input) and forall(range(len(student_input)), lambda i: is_str(student_input[i]))) or (allow_single and is_str(student_input))"],
+    exsures={"ConfigError": "True", "ValueError": "not allow_lists and not allow_single"}, modifies=[],
+    note="A10 (voluptuous Schema(str) / Schema([str])): returns its argument iff it is a text / list of texts as the flags demand, else raises ConfigError; decided by the bounded tier")
+
+contract(F + "ItemGrader.ensure_text_inputs", props=["C02"], trusted=True,
+    ensures=["same(result, student_input)", "is_str(student_input)"], exsures={"ConfigError": "True"}, modifies=[],
+    note="delegates to AbstractGrader.ensure_text_inputs(allow_lists=False)")
+
+contract(F + "AbstractGrader.create_debuglog", props=["C11", "C01"], trusted=True,
+    requires=["is_object(self)"],
+    ensures=["has_attr(self, 'debuglog', 'log_created')", "is_list(self.debuglog) and allocated(self.debuglog)", "same(self.log_created, True)",
+             "implies(has_attr(old(self), 'config'), same(self.config, old(self.config)))"],
+    modifies=["self"],
+    note="builds the debug log header (platform / json formatting outside the model); postcondition assumed, exercised by the bounded tier")
+
+contract(F + "AbstractGrader.log_output", props=["C01"], trusted=True, ensures=["is_str(result)"], modifies=[],
+    note="'<pre>' + newline-joined debug log + '</pre>': string formatting (A6)")
+
+
+@spec
+def fm_shape(result):
+    # what format_messages needs: a result dict whose message fields (when present) are strings
+    return (is_dict(result) and allocated(result)
+            and implies(is_long(result), is_list(result['input_list']) and allocated(result['input_list']) and not same(result['input_list'], result)
+                        and implies('overall_message' in result, is_str(result['overall_message']))
+                        and forall(range(len(result['input_list'])), lambda i: is_dict(result['input_list'][i]) and allocated(result['input_list'][i])
+                                   and not same(result['input_list'][i], result) and not same(result['input_list'][i], result['input_list'])
+                                   and implies('msg' in result['input_list'][i], is_str(result['input_list'][i]['msg'])))
+                        and forall(range(len(result['input_list'])), lambda i: forall(range(len(result['input_list'])), lambda j:
+                                   implies(i != j, not same(result['input_list'][i], result['input_list'][j])))))
+            and implies(not is_long(result), implies('msg' in result, is_str(result['msg']))))
+
+
+contract(F + "AbstractGrader.format_messages", props=["C01", "C02"],
+    requires=["fm_shape(result)"],
+    ensures=[
+        "is_long(result) == old(is_long(result))",
+        # single form: only msg is (re)written, it is a string; every other key is untouched
+        "implies(not is_long(result), is_str(result['msg']) and has_keys(result, 'msg') and forall(vals(), lambda k: implies(k != 'msg', (k in result) == old(k in result))))",
+        "implies(not is_long(result) and old('grade_decimal' in result), same(result['grade_decimal'], old(result['grade_decimal'])))",
+        "implies(not is_long(result) and old('ok' in result), same(result['ok'], old(result['ok'])))",
+        # list form: overall_message and every entry's msg become strings; grades, ok and the entry objects are untouched
+        "implies(is_long(result), is_str(result['overall_message']) and same(result['input_list'], old(result['input_list'])) and len(result['input_list']) == old(len(result['input_list'])))",
+        "implies(is_long(result), forall(range(len(result['input_list'])), lambda i: same(result['input_list'][i], old(result['input_list'][i])) and is_str(result['input_list'][i]['msg'])"
+        "   and forall(vals(), lambda k: implies(k != 'msg', (k in result['input_list'][i]) == old(k in result['input_list'][i])))"
+        "   and implies(old('grade_decimal' in result['input_list'][i]), same(result['input_list'][i]['grade_decimal'], old(result['input_list'][i]['grade_decimal'])))"
+        "   and implies(old('ok' in result['input_list'][i]), same(result['input_list'][i]['ok'], old(result['input_list'][i]['ok'])))))",
+    ],
+    modifies=["result", "elems(result['input_list']) if is_long(result) else nothing"],
+    loops={"for subresult in result['input_list']": dict(
+        modifies=["elems(result['input_list'])"],
+        invariant=[
+            "is_dict(result) and is_list(result['input_list']) and same(result['input_list'], old(result['input_list'])) and len(result['input_list']) == old(len(result['input_list']))",
+            "is_str(result['overall_message']) and forall(vals(), lambda k: implies(k != 'overall_message', (k in result) == old(k in result)))",
+            "forall(range(len(result['input_list'])), lambda i: same(result['input_list'][i], old(result['input_list'][i])) and is_dict(result['input_list'][i])"
+            "   and forall(vals(), lambda k: implies(k != 'msg', (k in result['input_list'][i]) == old(k in result['input_list'][i])))"
+            "   and implies(old('grade_decimal' in result['input_list'][i]), same(result['input_list'][i]['grade_decimal'], old(result['input_list'][i]['grade_decimal'])))"
+            "   and implies(old('ok' in result['input_list'][i]), same(result['input_list'][i]['ok'], old(result['input_list'][i]['ok'])))"
+            "   and implies(i >= K, ('msg' in result['input_list'][i]) == old('msg' in result['input_list'][i]) and implies('msg' in result['input_list'][i], is_str(result['input_list'][i]['msg']) ))"
+            "   and implies(i < K, is_str(result['input_list'][i]['msg'])))"])})
+
+
+@spec
+def call_self(self):
+    return (has_attr(self, 'config') and is_dict(self.config) and allocated(self.config)
+            and has_keys(self.config, 'debug', 'attempt_based_credit', 'attempt_based_credit_msg')
+            and is_bool(self.config['debug']) and is_bool(self.config['attempt_based_credit_msg'])
+            and (is_none(self.config['attempt_based_credit']) or is_callable(self.config['attempt_based_credit']))
+            and not same(self.config, self))
+
+
+@spec
+def checked_result(r):
+    # what a grader's check() hands back (A15 / the contracts of the concrete check methods): a fresh short entry, or a fresh long result whose
+    # input_list is a fresh list of pairwise distinct fresh entries; entries may carry extra bookkeeping keys
+    return (fresh(r) and is_dict(r)
+            and implies(not is_long(r), entry_shape(r) and ok_consistent(r))
+            and implies(is_long(r), has_keys(r, 'overall_message', 'input_list') and is_str(r['overall_message']) and is_list(r['input_list']) and fresh(r['input_list'])
+                        and not same(r['input_list'], r)
+                        and forall(range(len(r['input_list'])), lambda i: fresh(r['input_list'][i]) and entry_shape(r['input_list'][i]) and ok_consistent(r['input_list'][i])
+                                   and not same(r['input_list'][i], r) and not same(r['input_list'][i], r['input_list']))
+                        and forall(range(len(r['input_list'])), lambda i: forall(range(len(r['input_list'])), lambda j:
+                                   implies(i != j, not same(r['input_list'][i], r['input_list'][j]))))))
+
+
+@spec
+def stripping(result, K):
+    # key-stripping loop of __call__: the first K entries have been replaced by fresh dicts holding exactly ok / grade_decimal / msg
+    return (is_dict(result) and fresh(result) and keys_exactly(result, 'overall_message', 'input_list') and is_str(result['overall_message'])
+            and is_list(result['input_list']) and fresh(result['input_list']) and not same(result['input_list'], result)
+            and forall(range(len(result['input_list'])), lambda i: fresh(result['input_list'][i]) and entry_shape(result['input_list'][i]) and ok_consistent(result['input_list'][i])
+                       and not same(result['input_list'][i], result) and not same(result['input_list'][i], result['input_list'])
+                       and implies(i < K, keys_exactly(result['input_list'][i], 'ok', 'grade_decimal', 'msg')))
+            and forall(range(len(result['input_list'])), lambda i: forall(range(len(result['input_list'])), lambda j:
+                       implies(i != j, not same(result['input_list'][i], result['input_list'][j])))))
+
+
+SELF_CHECK = dict(params=['answers_arg', 'input_arg'],
+                  ensures=["checked_result(result)", "implies(is_long(result), keys_exactly(result, 'overall_message', 'input_list'))"],
+                  exsures={"*": "True"}, modifies=["self.debuglog"],
+                  note="A15: the abstract check() returns a fresh well-formed result (short, or long with exactly overall_message/input_list) or raises ANYTHING; "
+                       "it may write the debug log only")
+
+contract(F + "AbstractGrader.__call__", props=["C01", "C02", "C11", "C17"],
+    skip="symbolic execution completes (10 paths, 49 VCs) but 6 obligations time out in z3 (100 s each) and the run takes 16 min; "
+         "the behaviour of __call__ is decided by the bounded tiers of C01/C02/C11/C17",
+    requires=["call_self(self)", "is_dict(kwargs)", "not same(student_input, self) and not same(student_input, self.config)",
+              "implies('attempt' in kwargs, is_none(kwargs['attempt']) or is_int(kwargs['attempt']))"],
+    callees={"self.check": SELF_CHECK},
+    exsures={
+        # with debug off only library errors escape (C02); an unanticipated failure becomes the generic StudentFacingError
+        "*": "implies(not old(self.config['debug']), subclass_of(exc, MITxError))"},
+    ensures=[
+        "fresh(result) and is_dict(result)",
+        # exactly the structure edX consumes (C01)
+        "implies(not is_long(result), keys_exactly(result, 'ok', 'grade_decimal', 'msg') and entry_shape(result))",
+        "implies(is_long(result), keys_exactly(result, 'overall_message', 'input_list') and is_str(result['overall_message']) and is_list(result['input_list']))",
+        "implies(is_long(result), forall(range(len(result['input_list'])), lambda i: keys_exactly(result['input_list'][i], 'ok', 'grade_decimal', 'msg') and entry_shape(result['input_list'][i])))",
+        # ok agrees with the grade unless attempt-based credit left a zero-grade entry's pinned ok (C01 / C17)
+        "implies(not is_long(result), ok_consistent(result))",
+        "implies(is_long(result), forall(range(len(result['input_list'])), lambda i: ok_consistent(result['input_list'][i])))",
+        # the log_created flag is cleared for the next call (C11)
+        "same(self.log_created, False)",
+    ],
+    modifies=["self", "self.debuglog"],
+    loops={"for (idx, entry) in enumerate(result['input_list'])": dict(
+        modifies=["result['input_list']"],
+        invariant=[
+            "stripping(result, K)", "len(result['input_list']) == pre(len(result['input_list']))",
+            "has_attr(self, 'config', 'debuglog', 'log_created') and same(self.config, old(self.config)) and same(self.log_created, False) and is_list(self.debuglog) and allocated(self.debuglog)",
+        ])},
+    nonlinear='abstract')
